@@ -19,7 +19,8 @@ RULE = ("boundary enumeration per guarded entry point (index = size-1, size, siz
 CORR_ONLY = ["real memory safety is observed by the sanitizers on the compiled program; the theorems prove the index arithmetic",
              "Interpolation_2D(data_table) sort/unique step: std::sort + std::unique modelled by mergeSort + eraseDups (guard_iff for this constructor is correspondence-only)",
              "values returned by accepted requests are not compared here (C01-C09, C12-C20 do that)"]
-ASSUMPTIONS = ["1e-2 of Interpolation::Locate is modelled as exactly 1/100 and unit products exactly; abscissae are probed at ZERO margin (the edge itself, 1/2/4 ulps and 2^-50, 2^-40 relative beside it): a request is left out only if the domain test evaluated in double arithmetic differs from its exact evaluation AND the abscissa lies within 2^-44 (relative) of the edge (counted in input_distribution; 0 of ~6200 quick, 200 of ~45000 thorough requests)",
+ASSUMPTIONS = ["the property names the matrix ROW index: the inner (column) index of M[i][j] is a plain std::vector index, unchecked by the library (M[1][3] on a 2x3 matrix is a heap overflow); only meaningful inner indices are requested",
+               "1e-2 of Interpolation::Locate is modelled as exactly 1/100 and unit products exactly; abscissae are probed at ZERO margin (the edge itself, 1/2/4 ulps and 2^-50, 2^-40 relative beside it): a request is left out only if the domain test evaluated in double arithmetic differs from its exact evaluation AND the abscissa lies within 2^-44 (relative) of the edge (counted in input_distribution; 0 of ~6200 quick, 200 of ~45000 thorough requests)",
                "Matrix::Inverse: with exact arithmetic the third exit (zero pivot after partial pivoting) is unreachable for det != 0; inputs are small integer matrices on which double arithmetic is exact",
                "std::is_sorted / std::sort / std::unique behave as specified by the C++ standard"]
 TRUSTED = ["harness/c10.cpp builds the operands (constant-filled vectors/matrices/tables of the requested shape) for each request",
@@ -34,6 +35,19 @@ METHODS_1D = ["Trapezoidal", "Gauss-Legendre", "Gauss-Kronrod", "Tanh-Sinh", "Ga
 METHODS_MC = ["Monte-Carlo", "Vegas", "Miser"]
 BAD_METHODS = ["", "gauss-legendre", "GAUSS-LEGENDRE", "Gauss_Legendre", "Gauss-Legendre_3", "Gauss-Legendre_", "Simpson",
                "trapezoidal", "Trapezoidal.", "vegas", "VEGAS", "miser", "MonteCarlo", "Monte-carlo", "Tanh-sinh", "x"]
+
+
+# repairs proposed but not yet applied to /repo: True = the old behaviour is tolerated (the strict requests are not generated);
+# LP_ASSUME_FIXED=23,24 generates them anyway (rehearsal against a tree that carries the patch)
+PENDING_23 = True     # fixprop-C10-23: Minimization::minimize list lengths
+PENDING_24 = True     # fixprop-C10-24: summary statistics on too short data lists
+PENDING_25 = True     # fixprop-C10-25: CDF_Poisson / Inv_CDF_Poisson with UINT_MAX events
+PENDING_26 = True     # fixprop-C10-26: Matrix::Resize / Assign with negative dimensions
+PENDING_27 = True     # fixprop-C10-27: Integrate_MC region shape and number of calls
+
+
+def assume_fixed(i):
+    return (not globals()["PENDING_" + i]) or i in os.environ.get("LP_ASSUME_FIXED", "").split(",")
 
 
 def idx_values(size):
@@ -447,6 +461,11 @@ def generate(tier, seed, ctx):
         for m in range(0, 4):
             add("c10.gl %d %d" % (n, m))
     add("c10.gl 30 30"); add("c10.gl 30 31"); add("c10.gl 31 30")
+    # rules whose rows are not (root, weight) pairs (fix 455b721): rows of length 0, 1, 2, 3, at every position
+    for lens in ([], [2], [0], [1], [3], [2, 2], [2, 1], [1, 2], [2, 0], [0, 2], [2, 3], [3, 2], [2, 2, 2], [2, 2, 1], [2, 0, 2], [3, 2, 2], [2, 2, 2, 2, 3]):
+        add("c10.glfunc %s" % ilst(lens))
+        for n in sorted({len(lens), len(lens) + 1, max(len(lens) - 1, 0)}):
+            add("c10.glrows %d %s" % (n, ilst(lens)))
     # ---- 6. Special functions -------------------------------------------------------------------------------
     for n in [0, 1, 2, 20, 169, 170, 171, 172, 1000, IMAX, UMAX] + [rng.randint(0, 340) for _ in range(10)]:
         add("c10.factorial %d" % n)
@@ -568,6 +587,9 @@ def generate(tier, seed, ctx):
         add("c10.samplepoissonv %s" % lst([1.0, sg]))
         add("c10.samplepoissonv %s" % lst([sg, 2.0, 0.0]))
         add("c10.gamma %s" % hx(sg))
+    # meaningful arguments near the overflow of the Gamma function: a FINITE number wherever Gamma(x) is finite
+    for xg in (0.5, 1.0, 4.0, 100.0, 170.0, 171.0, 171.5, 171.6, 171.6 + 2.0 ** -40, 171.61, 171.62, 171.624, 171.6243, 171.7, 200.0):
+        add("c10.gamma %s" % hx(xg))
         for x in ((-1.0, -P50, -0.0, 0.0, 1.0, 4.0) if thorough else (-1.0, 0.0, 1.0)):
             add("c10.uppergamma %s %s" % (hx(x), hx(sg)))
             add("c10.lowergamma %s %s" % (hx(x), hx(sg)))
@@ -590,6 +612,33 @@ def generate(tier, seed, ctx):
     for rows in ([], [[]], [[], []], [[A], []], [[], [A]], [[A, B_], [C_]], [[A], [C_, D_]], [[A, B_], [C_, D_]], [[A, B_], [C_, D_], [C_]],
                  [[A, B_], [C_, D_], [C_, D_, D_]], [[A]], [[A, B_]], [[A], [C_]], [[A, B_], [C_, (1, 2)]], [[(0, 0)]], [[(0, 2), (0, 1)], [(1, 2), (1, 1)]]):
         add(blk(rows))
+    # ---- second audit: list lengths of Minimization::minimize and of the summary statistics, UINT_MAX event counts -------------
+    if assume_fixed("23"):
+        for n in range(0, 4):
+            add("c10.simplex.delta %d" % n)
+            for m in sorted({0, n, n + 1, max(n - 1, 0)}):
+                add("c10.simplex.deltas %d %d" % (n, m))
+        for lens in ([], [0], [1], [1, 1], [1, 1, 1], [2, 2], [2, 2, 2], [2, 2, 1], [2, 1, 2], [1, 2, 2], [2, 2, 2, 2], [3, 3, 3, 3], [3, 3, 3], [0, 0], [2, 2, 3], [2, 2, 0]):
+            add("c10.simplex.pp %s" % ilst(lens))
+    if assume_fixed("26"):
+        for r in (-IMAX - 1, -1, 0, 1, 3):
+            for c in (-IMAX - 1, -1, 0, 2):
+                add("c10.mat.resize %d %d" % (r, c)); add("c10.mat.assign %d %d" % (r, c))
+    if assume_fixed("27"):
+        for m in METHODS_MC + ["bogus"]:
+            for n_ in (-1, 0, 1, 2, 3, 50):
+                add("c10.integmc.shape m:%s %d 4" % (m, n_))
+            for rs in (0, 1, 2, 3, 5, 6):
+                add("c10.integmc.shape m:%s 50 %d" % (m, rs))
+    if assume_fixed("24"):
+        for n in (0, 1, 2, 3, 8):
+            for o in ("mean", "median", "variance", "stddev", "wavg"):
+                add("c10.%s %d" % (o, n))
+    if assume_fixed("25"):
+        for mu in (0.0, 1.0, 50.0):
+            add("c10.cdfpoisson %s %d" % (hx(mu), UMAX)); add("c10.cdfpoisson %s %d" % (hx(mu), UMAX - 1))
+        for c in (0.0, 0.5, 1.0):
+            add("c10.invcdfpoisson %d %s" % (UMAX, hx(c)))
     # deterministic order, duplicates removed; interpolation requests inside the rounding band of the 1% test are dropped
     seen, out = set(), []
     for r in R:
@@ -626,6 +675,7 @@ def compare(rq, impl, model, ctx):
     bump(ctx, "%s %s" % (op, tag(model)))
     if tag(model) in ("ok", "err"):
         ctx["nontrivial"].add(rq)
+    fs = fs + finite_where_finite(rq, impl)
     mf = meaningful(rq)
     if mf is not None and tag(model) in ("ok", "err") and mf != (tag(model) == "ok"):
         return fs + [fail("corr", "model and the direct predicate of props/c10.py disagree on the meaningfulness of a request", "direct: %s" % mf)]
@@ -681,6 +731,24 @@ def meaningful(rq):
             return n(0) == 2 or (n(0) == 3 and n(1) == 3)
         if op == "gl":
             return n(0) == n(1)
+        if op in ("mat.resize", "mat.assign"):
+            return n(0) >= 0 and n(1) >= 0
+        if op == "integmc.shape":
+            return a[0][2:] in METHODS_MC and n(2) > 0 and n(2) % 2 == 0 and n(1) >= (2 if a[0][2:] == "Vegas" else 1)
+        if op == "simplex.delta":
+            return n(0) >= 1
+        if op == "simplex.deltas":
+            return n(0) >= 1 and n(1) == n(0)
+        if op == "simplex.pp":
+            return n(0) >= 2 and all(int(v) == n(0) - 1 for v in a[1:])
+        if op in ("mean", "median"):
+            return n(0) >= 1
+        if op in ("variance", "stddev", "wavg"):
+            return n(0) >= 2
+        if op == "glrows":
+            return n(0) == n(1) and all(v == "2" for v in a[2:])
+        if op == "glfunc":
+            return all(v == "2" for v in a[1:])
         if op == "factorial":
             return n(0) <= 170
         if op == "factorial.hist":
@@ -770,7 +838,25 @@ def meaningful(rq):
     return None
 
 
+def finite_where_finite(rq, impl):
+    """a meaningful request returns a FINITE number wherever the mathematical value is finite (Gamma below its overflow)"""
+    t = rq.split()
+    if t[0] == "c10.gamma" and tag(impl) == "ok":
+        x = fl(t[1])
+        try:
+            ref_finite = x > 0 and math.isfinite(math.gamma(x)) and x <= 171.62
+        except (OverflowError, ValueError):
+            ref_finite = False
+        v = fl(toks(impl)[0])
+        if ref_finite and not math.isfinite(v):
+            return [fail("prop", "meaningful request returned a non-finite number where the function is finite", impl[:120])]
+    return []
+
+
 def oracle_verdict(rq, impl):
+    extra = finite_where_finite(rq, impl)
+    if extra:
+        return extra
     mf = meaningful(rq)
     if mf is None or tag(impl) not in ("ok", "err"):
         return []
